@@ -1,9 +1,9 @@
 (* Properties_C01.v — ONLY the property theorems for C01 (font loading is total and memory-safe on arbitrary table bytes).
    Models: Model/SfntModel.v (container / file face), Model/CmapModel.v, Model/Lz4Model.v, Model/VmModel.v (bytecode loader),
-   each hand-written after the parser it names.  The parsers of Silf / Pass / Glat / Gloc / Sill / name are not modelled:
+   each hand-written after the parser it names; Model/GlatModel.v (Gloc / Glat reader), Model/PassModel.v (pass header).  The rest of the Silf parser and the Sill / name parsers are not modelled:
    DESIGN.md section 6/C01 lists them as covered by the sanitizer oracle only. *)
 From GR Require Import Base.Bytes Base.MemFacts Model.SfntModel Proofs.SfntProofs Model.CmapModel Proofs.CmapSafe Model.Lz4Model Proofs.Lz4Safe
-                       Model.VmModel Proofs.VmProofs.
+                       Model.VmModel Proofs.VmProofs Base.Mem Model.GlatModel Proofs.GlatProofs.
 From Coq Require Import NArith.
 
 (* The file face: for ARBITRARY file bytes, a table handed out is a slice of the file (offset + length inside the file) … *)
@@ -59,3 +59,25 @@ Theorem C01_read_pass_safe : forall (l : bytes) base coll_ok,
   end.
 Proof. exact read_pass_arbitrary_bytes. Qed.
 Print Assumptions C01_read_pass_safe.
+
+(* The glyph-attribute reader (GlyphCache::Loader, read_glyph, the Glat run iterators): for ARBITRARY Gloc and Glat bytes the header
+   checks never read outside the tables, and once they accepted the pair, reading the attributes of ANY glyph below the
+   attributed-glyph count never reads outside either table and ends by itself (fuel is not what stops the iterator). *)
+Theorem C01_glat_loader_total : forall (gloc glat : bytes) ng, glat_loader (mem_of_list gloc) (mem_of_list glat) ng <> None.
+Proof. intros. apply glat_loader_total; apply mem_of_list_wf. Qed.
+Print Assumptions C01_glat_loader_total.
+Theorem C01_glat_reads_in_bounds : forall (gloc glat : bytes) ng l, glat_loader (mem_of_list gloc) (mem_of_list glat) ng = Some (Some l) ->
+  forall gid, (gid < gl_nglyphs l)%N -> read_attrs l (mem_of_list gloc) (mem_of_list glat) gid <> GTrap.
+Proof. intros gloc glat ng l. apply read_attrs_safe; apply mem_of_list_wf. Qed.
+Print Assumptions C01_glat_reads_in_bounds.
+(* non-vacuity: two glyphs, version-1 Glat; glyph 0 has attributes 1 -> 7, 2 -> 9; glyph 1's block claims a run of 2 with room for one
+   value and a stray byte: the iterator stops at the stray byte instead of reading past the table *)
+Example C01_example_glat :
+  let gloc := [0;1;0;0; 0;0; 0;8;  0;4; 0;10; 0;15]%N in
+  let glat := [0;1;0;0;  1;2;0;7;0;9;  0;2;0;5;3]%N in
+  match glat_loader (mem_of_list gloc) (mem_of_list glat) 2 with
+  | Some (Some l) => gl_nglyphs l = 2%N /\ read_attrs l (mem_of_list gloc) (mem_of_list glat) 0 = GAttrs [(1, 7); (2, 9)]%N
+                     /\ read_attrs l (mem_of_list gloc) (mem_of_list glat) 1 = GAttrs [(0, 5)]%N
+  | _ => False
+  end.
+Proof. vm_compute. repeat split. Qed.
